@@ -25,13 +25,181 @@ class C05(LBCheck):
           'balancer, all members healthy) |members| requests are left outstanding and exactly the current members '
           'must have received one each. Every 4th case instead drives a complete real client stack (C01\'s scenarios '
           'with joins and leaves under traffic and faults) and compares at final quiescence. '
+          'Every 8th case puts the real ZooKeeperServerSetProvider (over the in-memory ZooKeeper, optionally naming an additional endpoint) under the balancer: member znodes are created, deleted and restarted under traffic and the eligible endpoints must equal the endpoints of the znodes present at every quiescent point. '
           'non-trivial = a join or leave was delivered; distinct as C03')
   REQUIRED_CLASSES = ('heap', 'aperture', 'join-duplicate', 'leave-unknown', 'rejoin', 'notify-during-loading',
                       'rejoin-while-draining', 'removal', 'init-retry', 'saturation-probe', 'full-stack', 'tuple-endpoints', 'close-raises-on-leave', 'duplicates-in-initial-list',
-                      'named-endpoint')
+                      'named-endpoint', 'zk-backed', 'zk-backed:named-endpoint', 'zk-backed:restart', 'look-alike-endpoints')
   ASSUMPTIONS = ('eligible endpoints are read from the balancer\'s heap and idle set (observe_at: internal)',)
 
+  def _zk_backed(self, env, rng, idx, tier):
+    """The real ZooKeeper provider (zk://... as the URI parser builds it, optionally naming an
+    additional endpoint) over the in-memory ZooKeeper, under a real balancer with harness-owned
+    member channels: the history is znodes being created and deleted under traffic."""
+    import json
+    import gevent
+    from scales.loadbalancer.serverset import ZooKeeperServerSetProvider
+    from scales.loadbalancer.zookeeper import Endpoint
+    from vlib.fakezk import FakeKazooClient
+    from vlib.framework import CaseResult
+    from vlib.lbworld import make_world
+    out = CaseResult()
+    kind = rng.choice(['heap', 'aperture'])
+    named = rng.choice([None, 'aux', 'thrift'])
+    classes = {kind, 'zk-backed'} | ({'zk-backed:named-endpoint'} if named else set())
+    lat_cls = rng.choice(['zero', 'small', 'large'])
+    zk = FakeKazooClient(env, rng, {'zero': (0.0, 0.0), 'small': (0.0, 0.003), 'large': (0.0, 0.05)}[lat_cls])
+    path = '/svc/prod'
+    zk.nodes['/svc'] = [b'', {'czxid': 1, 'mzxid': 1, 'version': 0, 'cversion': 0, 'pzxid': 1}]
+    zk.create_node(path)
+    counter, port = [0], [7000]
+    facts = {'balancer': kind, 'named': bool(named), 'latency': lat_cls}
+
+    def add_member():
+      counter[0] += 1
+      port[0] += 1
+      blob = {'serviceEndpoint': {'host': 'svc%d' % port[0], 'port': port[0]},
+              'additionalEndpoints': {'aux': {'host': 'aux%d' % port[0], 'port': port[0] + 1000},
+                                      'thrift': {'host': 'th%d' % port[0], 'port': port[0] + 2000},
+                                      'admin': {'host': 'adm%d' % port[0], 'port': port[0] + 3000}},
+              'status': 'ALIVE'}
+      zk.create_node('%s/member_%010d' % (path, counter[0]), json.dumps(blob).encode())
+
+    def truth():
+      t = set()
+      for p_, (data, _st) in zk.nodes.items():
+        if p_.startswith(path + '/member_'):
+          d = json.loads(data)
+          e = d['additionalEndpoints'][named] if named else d['serviceEndpoint']
+          t.add(Endpoint(e['host'], e['port']))
+      return t
+    for _ in range(rng.choice([0, 1, 3, 6])):
+      add_member()
+    zk.create_node(path + '/lock_0001', b'not a member')
+    prov = ZooKeeperServerSetProvider(zk, path, endpoint_name=named)
+    lb_params = {}
+    if kind == 'aperture':
+      lb_params = {'min_size': rng.choice([1, 2]), 'max_size': 2 ** 31, 'min_load': 0.5, 'max_load': 2.0,
+                   'jitter_min_sec': 0, 'jitter_max_sec': 0}
+    w = make_world(env, rng, kind, lb_params, lambda ch: (rng.choice([0.0, 0.0, 0.02]), True), provider=prov)
+    lb = w.lb
+    open_ar = w.top.Open()
+    # members come and go while the balancer is still loading its initial listing
+    for _ in range(rng.choice([0, 0, 2])):
+      add_member()
+      classes.add('zk-backed:change-during-loading')
+      gevent.sleep(0)
+    g = 0
+    while not open_ar.ready() and g < 100:
+      env.advance(0.05)
+      g += 1
+    live = []
+    stats = {'dispatches': 0, 'checks': 0}
+
+    def quiesce():
+      for _ in range(100):
+        env.advance(0.12)
+        ss_ = prov._server_set
+        if zk.quiet() and (ss_ is None or ss_._notification_queue.empty()):
+          env.advance(0.12)
+          if zk.quiet() and (ss_ is None or ss_._notification_queue.empty()):
+            return True
+      return False
+
+    def check(where):
+      if not quiesce():
+        return
+      stats['checks'] += 1
+      out.obligations += 1
+      t = truth()
+      heap_eps = [n.endpoint for n in lb._heap[1:]]
+      eligible = set(heap_eps) | set(getattr(lb, '_idle_endpoints', ()))
+      if len(heap_eps) != len(set(heap_eps)):
+        out.violate('membership:duplicate', '%s: endpoint appears twice in the balancer: %r' % (
+          where, sorted(map(str, heap_eps))), facts)
+      elif eligible != t:
+        out.violate('membership:differs', '%s: balancer over the ZooKeeper provider can dispatch to %r, the member '
+                    'znodes present name %r' % (where, sorted(map(str, eligible)), sorted(map(str, t))),
+                    dict(facts, missing=bool(t - eligible), extra=bool(eligible - t)))
+      bad = [n for n in lb._heap[1:] if getattr(n.channel, 'ep', n.endpoint) != n.endpoint]
+      if bad:
+        out.violate('membership:channel-of-other-endpoint', '%s: entry for %s dispatches over a channel created for %s' % (
+          where, bad[0].endpoint, bad[0].channel.ep), facts)
+    check('after open')
+    nops = rng.choice([15, 40, 100])
+    for _ in range(nops):
+      k = rng.random()
+      members = sorted(p_ for p_ in zk.nodes if p_.startswith(path + '/member_'))
+      if k < 0.3:
+        add_member()
+      elif k < 0.55 and members:
+        zk.delete_node(rng.choice(members))
+      elif k < 0.62:
+        classes.add('zk-backed:burst')
+        for _i in range(rng.randint(2, 6)):
+          mm = sorted(p_ for p_ in zk.nodes if p_.startswith(path + '/member_'))
+          if mm and rng.random() < 0.5:
+            zk.delete_node(rng.choice(mm))
+          else:
+            add_member()
+      elif k < 0.68 and members:
+        # a member restarts: same data under a new node name
+        classes.add('zk-backed:restart')
+        old = rng.choice(members)
+        data_ = zk.nodes[old][0]
+        zk.delete_node(old)
+        if lat_cls != 'zero' and rng.random() < 0.5:
+          gevent.sleep(rng.random() * zk.latency[1])
+        counter[0] += 1
+        zk.create_node('%s/member_%010d' % (path, counter[0]), data_)
+      elif k < 0.9:
+        r = w.dispatch(timeout=None)
+        stats['dispatches'] += 1
+        if r.get('raised'):
+          out.violate('dispatch:raised', 'dispatch raised %s' % (r['raised'][0],), facts, {'traceback': r['raised'][1]})
+        elif r['channel'] is not None and not r['deliveries']:
+          live.append(r)
+      elif live:
+        w.complete(live.pop(rng.randrange(len(live))), 'reply')
+      if rng.random() < 0.3:
+        gevent.sleep(rng.random() * 0.004)
+      elif rng.random() < 0.3:
+        check('mid-history')
+      if len(out.violations) >= 4:
+        break
+    check('end of history')
+    # every current member is reachable through the balancer: with all of them idle, |members|
+    # dispatches without completions go to |members| different endpoints (heap balancer)
+    for r in list(live):
+      w.complete(r, 'reply')
+    env.advance(0.5)
+    if kind == 'heap' and quiesce() and not out.violations:
+      t = truth()
+      got = set()
+      for _ in range(len(t)):
+        r = w.dispatch(timeout=None)
+        if r['channel'] is not None:
+          got.add(r['channel'].ep)
+          live.append(r)
+      out.obligations += 1
+      if got != t:
+        out.violate('membership:traffic', 'with every member idle, one request per member reached %r, members are %r' % (
+          sorted(map(str, got)), sorted(map(str, t))), facts)
+      for r in list(live):
+        w.complete(r, 'reply')
+    w.top.Close()
+    zk.shutdown()
+    env.advance(0.2)
+    out.classes = sorted(classes)
+    out.nontrivial = stats['checks'] >= 2 and counter[0] >= 2
+    out.extra = {'zk_members_created': counter[0], 'zk_checks': stats['checks'], 'zk_dispatches': stats['dispatches'],
+                 'zk_callback_errors_diag': len(zk.callback_errors)}
+    out.sig = ('zk-backed', kind, named, lat_cls, nops, sorted(c for c in classes if ':' in c))
+    return out
+
   def run_case(self, env, rng, idx, tier):
+    if idx % 8 == 5:
+      return self._zk_backed(env, rng, idx, tier)
     if idx % 4 == 3:
       if not hasattr(self, '_full'):
         self._full = _FullStackMembership()
